@@ -281,6 +281,11 @@ func staticSig(t *staticTree, c *staticCase, o *staticObs) string {
 	case c.Method != "GET" && c.Method != "HEAD" && o.Status < 400:
 		return "static/method-served/" + c.Method
 	case o.Status == 200 && o.File != "" && o.File != "?":
+		for _, a := range c.Allow {
+			if a.K == "file" && strings.Join(a.F, "/") == servedRel {
+				return fmt.Sprintf("static/bad-headers/%s/cl=%s/ce=%s", servedRel, o.CL, o.CE)
+			}
+		}
 		return "static/wrong-file/" + servedRel
 	case o.Status == 200:
 		return fmt.Sprintf("static/bad-200/cl=%s/body=%d", o.CL, o.Body)
